@@ -136,7 +136,7 @@ fn main() {
             let txt = std::fs::read_to_string(&args[2]).expect("read replay file");
             let j = json::parse(&txt).expect("parse replay file");
             let s = script::Script::from_json(&j).expect("decode script");
-            if s.build != BUILD {
+            if s.build != BUILD && !(cfg!(miri) && s.build == "miri") {
                 eprintln!("mzsim: replay file is for build '{}', this binary is '{}'", s.build, BUILD);
                 std::process::exit(3);
             }
@@ -220,6 +220,7 @@ fn main() {
                     continue;
                 }
                 done += 1;
+                println!("miri-cabi: executing run {}", i - 1);
                 match runner::exec_guarded(def, &s, &mut st) {
                     runner::ExecOut::Ok(_) => {}
                     runner::ExecOut::Viol(v) => {
